@@ -277,13 +277,15 @@ Proof.
     assert (Z.abs (Z.quot E second_ns) <= (Z.abs (Z.quot (now - startSys g) second_ns) + 1) * rate); [|lia].
     rewrite <- Z.quot_abs by lia. rewrite (Z.abs_eq second_ns) by lia.
     rewrite Z.quot_div_nonneg by lia. apply Z.div_le_upper_bound; lia. }
-  rewrite wrap64_id by (unfold i64; lia).
-  do 2 eexists. split; [reflexivity|]. cbn [tracks lookup]. rewrite N.eqb_refl.
-  splits; try reflexivity.
   pose proof (quot_err A R HR) as He1.
   assert (Hs : 0 < second_ns) by (unfold second_ns; lia).
   pose proof (quot_err E second_ns Hs) as He2.
   set (x := Z.quot A R) in *. set (y := Z.quot E second_ns) in *.
+  clearbody x y. clear Hb1 Hb2 Hb3 Hb4.
+  assert (Hxy : i64 (x + y)) by (unfold i64; clear He1 He2; lia).
+  rewrite (wrap64_id _ Hxy).
+  do 2 eexists. split; [reflexivity|]. cbn [tracks lookup]. rewrite N.eqb_refl.
+  splits; try reflexivity.
   replace (second_ns * R * (x + y) - (A * second_ns + E * R))
     with (second_ns * (R * x - A) + R * (second_ns * y - E)) by lia.
   eapply Z.le_lt_trans; [apply Z.abs_triangle|].
